@@ -484,6 +484,11 @@ func (v *Verifier) writeReplay(prop, name, why string, o *Oblig, tier string, se
 	path := filepath.Join(dir, sanitize(name)+".json")
 	rep := map[string]interface{}{"property": prop, "obligation": name, "reason": why, "found_by": "none"}
 	confirmed := false
+	if o == nil && strings.HasSuffix(name, "#*") {
+		// the function could not be analysed: search for a failing input of its (unchanged) contract on the real code
+		o = &Oblig{Name: name, Func: strings.TrimSuffix(name, "#*"), Info: "directed search against the contract of a function that left the verifiable subset",
+			Res: SolverResult{Solver: "none", Result: "not analysable"}}
+	}
 	if o != nil {
 		rep["function"] = o.Func
 		rep["case"] = o.Sub
